@@ -349,7 +349,7 @@ limit-free `JsonVal.impliedType`; `json_implied_limit_only_adds_errors` carries 
 (`Generated/Limits.lean`, re-extracted from cty/json/type_implied.go on every check, together with
 the shape of the guard and the `depth+1` of the two recursive calls) -/
 def jsonImpliedType (env : JsonVal.JEnv) (j : Json) : Res Ty :=
-  jsonImpliedTop env Generated.jsonMaxImpliedTypeDepth j
+  jsonImpliedTop env Generated.jsonImpliedTypeDepthLimit j
 
 /-- The limit does nothing but turn outcomes into errors: with the limit the outcome is the one
 without it, or an error — at every depth, for every limit. -/
@@ -361,13 +361,13 @@ theorem json_implied_limit_only_adds_errors (env : JsonVal.JEnv) (max d : Nat) (
 `maxImpliedTypeDepth` deep gets exactly the outcome of the limit-free function (the correspondence of
 the JSON half before /repo 0c63e6a, and the theorems about `JsonVal.impliedType`, stay valid there). -/
 theorem json_implied_within_limit_unchanged (env : JsonVal.JEnv) (j : Json)
-    (h : jnest j ≤ Generated.jsonMaxImpliedTypeDepth) : jsonImpliedType env j = JsonVal.impliedType env j :=
-  jsonImplied_within env Generated.jsonMaxImpliedTypeDepth j 0 (Or.inl (by omega))
+    (h : jnest j ≤ Generated.jsonImpliedTypeDepthLimit) : jsonImpliedType env j = JsonVal.impliedType env j :=
+  jsonImplied_within env Generated.jsonImpliedTypeDepthLimit j 0 (Or.inl (by omega))
 
 /-- … so `json.ImpliedType` with its limit never panics, on every token tree … -/
 theorem json_implied_limited_never_panics (env : JsonVal.JEnv) (j : Json) (w : String) :
     jsonImpliedType env j ≠ .panic w := by
-  rcases jsonImplied_eq_or_err env Generated.jsonMaxImpliedTypeDepth j 0 with h | ⟨c, h⟩
+  rcases jsonImplied_eq_or_err env Generated.jsonImpliedTypeDepthLimit j 0 with h | ⟨c, h⟩
   · unfold jsonImpliedType jsonImpliedTop; rw [h]; exact json_implied_never_panics env j w
   · unfold jsonImpliedType jsonImpliedTop; rw [h]; simp
 
@@ -377,7 +377,7 @@ theorem json_implied_limited_ok_wf (env : JsonVal.JEnv) (j : Json) (t : Ty) (h :
     Ty.wf t = true ∧ Ty.hasOpt t = false ∧
     ((∀ s, env.norm (env.norm s) = env.norm s) → Ty.namesAll (C17Json.nfcOf env.norm) t = true) := by
   unfold jsonImpliedType jsonImpliedTop at h
-  rcases jsonImplied_eq_or_err env Generated.jsonMaxImpliedTypeDepth j 0 with h' | ⟨c, h'⟩
+  rcases jsonImplied_eq_or_err env Generated.jsonImpliedTypeDepthLimit j 0 with h' | ⟨c, h'⟩
   · rw [h'] at h; exact json_implied_ok_wf env j t h
   · rw [h'] at h; cases h
 
@@ -386,8 +386,8 @@ nested at most `maxImpliedTypeDepth` (= 10000, the constant of the source) deep 
 of `impliedTypeForTok` / `impliedObjectType` / `impliedTupleType`, one frame triple per level, is
 at most that deep on ANY document: -/
 theorem json_implied_nesting_bounded (env : JsonVal.JEnv) (j : Json) (t : Ty) (h : jsonImpliedType env j = .ok t) :
-    jnest j ≤ Generated.jsonMaxImpliedTypeDepth := by
-  have := jsonImplied_ok_nest env Generated.jsonMaxImpliedTypeDepth j 0 t h
+    jnest j ≤ Generated.jsonImpliedTypeDepthLimit := by
+  have := jsonImplied_ok_nest env Generated.jsonImpliedTypeDepthLimit j 0 t h
   omega
 
 /-- … at the limit an array or an object is answered with an error at once, before any member is
